@@ -376,3 +376,20 @@ def expanded_text(f: Func, e: ast.AST, depth: int = 2) -> str:
                 if v is not None:
                     out.append(expanded_text(f, v, depth - 1))
     return ' '.join(out)
+
+
+def is_report_call(repo: Repo, c: ast.AST) -> bool:
+    """c calls `.report(...)`, or a module-level / same-class private helper every path of which does (`_report_variable_field(obj, field, msg)`)."""
+    if not isinstance(c, ast.Call):
+        return False
+    nm = call_name(c)
+    if nm == 'report':
+        return True
+    if not nm.startswith('_') or nm.startswith('__'):
+        return False
+    for g in repo.funcs.values():
+        if g.name == nm and g.outer is None and g.mod.name.startswith('pydoctor.') and '.test' not in g.mod.name:
+            body = [st for st in g.node.body if not (isinstance(st, ast.Expr) and isinstance(st.value, ast.Constant))]
+            if body and all(isinstance(st, ast.Expr) and isinstance(st.value, ast.Call) and call_name(st.value) == 'report' for st in body):
+                return True
+    return False
